@@ -104,7 +104,7 @@ class BatchedMonitor(taps.Monitor):
                 return
             e = tx.maxdiff(r, unb)
             ctx.err("batched_vs_unbatched", e)
-            if e > 1e-12 * max(1.0, float(np.abs(unb).max()) if unb.size else 1.0):
+            if not (e <= 1e-12 * max(1.0, float(np.abs(unb).max()) if unb.size else 1.0)):
                 ctx.fail("batched_result_differs_from_unbatched", cls=cls, mech=bsk + ":" + str(x.dtype), err=e)
 
 
